@@ -123,73 +123,24 @@ class ReedMullerDecoder(BaseBlockDecoder[ReedMullerCodeEncoder]):
             that form check sums for a specific information bit
 
         Note:
-            This implementation is simplified and would need to be expanded for a full
-            production implementation to handle all possible Reed-Muller parameters
-            correctly. The actual construction of these partitions is based on the
-            recursive structure of Reed-Muller codes and their relation to finite geometries.
+            Partition j belongs to row j of the encoder's generator matrix (the coefficient of one
+            monomial); it holds one index tensor per check sum.
         """
-        # This is a simplified implementation of Reed partitions generation
-        # In a full implementation, this would depend on the specific parameters
-        # of the Reed-Muller code (r, m)
+        # The rows of the generator matrix are the monomials of degree r, r-1, ..., 1 (each in
+        # lexicographic order of the variable subsets I) followed by the all-ones row. Variable i
+        # is bit (m - 1 - i) of the position index. The check sums for the coefficient of the
+        # monomial x_I are the 2^(m-|I|) cosets of the positions spanned by the bits of I.
+        from itertools import combinations, product
 
-        # For demonstration purposes, we'll create a basic structure
-        # A real implementation would compute these based on the code properties
+        order, m = self.encoder.order, self.encoder.length_param
         partitions = []
-
-        # Example partitioning logic - would need to be replaced with actual Reed-Muller partitioning
-        m = 0
-        r = 0
-
-        # Try to infer Reed-Muller parameters from code length and dimension
-        # For an (r,m) Reed-Muller code:
-        # - Length n = 2^m
-        # - Dimension k = sum(i=0 to r) of binomial(m,i)
-
-        # Infer m from code length
-        n = self.code_length
-        temp_m = 0
-        while 2**temp_m < n:
-            temp_m += 1
-        if 2**temp_m == n:
-            m = temp_m
-
-        # Given m, try to infer r from dimension
-        if m > 0:
-            k = self.code_dimension
-            temp_r = 0
-            temp_k = 0
-            while temp_k < k and temp_r <= m:
-                # Add binomial coefficient (m choose temp_r)
-                from math import comb
-
-                temp_k += comb(m, temp_r)
-                if temp_k == k:
-                    r = temp_r
-                    break
-                temp_r += 1
-
-        # Generate partitions based on Reed-Muller structure
-        if m > 0 and 0 <= r <= m:
-            # Generate partitions based on the cosets of the Reed-Muller code
-            # This is a simplified approach - actual implementation would be more involved
-
-            # For each information bit
-            for i in range(self.code_dimension):
-                # Create a partition for this bit
-                partition = []
-
-                # In a real implementation, these would be carefully constructed
-                # based on the algebraic structure of Reed-Muller codes
-                for j in range(2 ** (m - 1)):
-                    # Create groups of positions that form checks for this bit
-                    positions = []
-                    for offset in range(2**r):
-                        pos = (j * 2**r + offset) % self.code_length
-                        positions.append(pos)
-
-                    # Convert to tensor
-                    partition.append(torch.tensor(positions, dtype=torch.long))
-
+        for ell in range(order, -1, -1):
+            for indices in combinations(range(m), ell):
+                bits_in = [m - 1 - i for i in indices]
+                bits_out = [b for b in range(m) if b not in bits_in]
+                span = [sum(c << b for c, b in zip(choice, bits_in)) for choice in product([0, 1], repeat=len(bits_in))]
+                offsets = [sum(c << b for c, b in zip(choice, bits_out)) for choice in product([0, 1], repeat=len(bits_out))]
+                partition = [torch.tensor([offset + s for s in span], dtype=torch.long) for offset in offsets]
                 partitions.append(partition)
 
         return partitions
@@ -235,108 +186,53 @@ class ReedMullerDecoder(BaseBlockDecoder[ReedMullerCodeEncoder]):
             raise ValueError(f"Last dimension ({L}) must be divisible by code length ({self.code_length})")
 
         # Process blockwise
+        generator_rows = (self.encoder.generator_matrix != 0).to(torch.int).to(received.device)
+
         def decode_block(r_block):
-            batch_size = r_block.shape[0]
-            decoded = torch.zeros(batch_size, self.code_dimension, dtype=torch.int, device=received.device)
-            errors = torch.zeros_like(r_block) if return_errors else None
+            # r_block has shape (..., blocks, code_length): decode every block on its own
+            words = r_block.reshape(-1, self.code_length)
+            decoded = torch.zeros(words.shape[0], self.code_dimension, dtype=torch.int, device=received.device)
+            errors = torch.zeros(words.shape, dtype=r_block.dtype, device=received.device) if return_errors else None
 
-            for i in range(batch_size):
-                # Get the current received word - ensure it's a 1D tensor
-                if r_block.dim() == 3:  # Handle the case when r_block has shape [batch, 1, code_length]
-                    r = r_block[i, 0, :]
-                else:  # Handle the case when r_block has shape [batch, code_length]
-                    r = r_block[i, :]
+            for i in range(words.shape[0]):
+                r = words[i]
 
-                """
-                # Convert to binary for hard decoding or compute hard decisions for soft decoding
+                # Hard decisions on the received word (for soft input a negative value means bit 1)
                 if self.input_type == "hard":
-                    bx = r.clone()
+                    bx = (r != 0).to(torch.int)
                 else:  # self.input_type == "soft"
                     bx = (r < 0).to(torch.int)
-                """
+                    reliabilities = torch.abs(r)
 
-                # Decode using Reed algorithm
+                # Reed algorithm: decide the coefficients of the highest-order monomials first by a
+                # majority vote over their check sums and remove their contribution before moving on
                 u_hat = torch.zeros(self.code_dimension, dtype=torch.int, device=received.device)
-
-                # Process each bit position using its corresponding partition
                 for j, partition in enumerate(self._reed_partitions):
-                    if j >= self.code_dimension:
-                        break
+                    groups = torch.stack(partition).to(received.device)  # (number of check sums, group size)
+                    checksums = bx[groups].sum(dim=1) % 2
 
-                    # For hard decision decoding
                     if self.input_type == "hard":
-                        # Calculate checksums for each group in the partition
-                        checksums = []
-                        for group in partition:
-                            # Ensure the group indices are valid
-                            valid_indices = group[group < r.shape[0]]
-                            if len(valid_indices) == 0:
-                                continue
-
-                            # Take relevant positions and compute parity
-                            # Use indexing to select elements from the 1D tensor
-                            group_bits = r[valid_indices].to(torch.int)
-                            checksum = torch.sum(group_bits) % 2
-                            checksums.append(checksum.item())  # Use .item() to convert tensor to scalar
-
-                        # Skip if no valid checksums
-                        if not checksums:
-                            continue
-
-                        # Convert to tensor
-                        checksums = torch.tensor(checksums, device=received.device)
-
-                        # Make majority decision
-                        u_hat[j] = (torch.sum(checksums) > len(checksums) // 2).to(torch.int)
-
-                    # For soft decision decoding
-                    else:  # self.input_type == "soft"
-                        # Calculate checksums and minimum reliabilities for each group
-                        checksums = []
-                        min_reliabilities = []
-
-                        for group in partition:
-                            # Ensure the group indices are valid
-                            valid_indices = group[group < r.shape[0]]
-                            if len(valid_indices) == 0:
-                                continue
-
-                            # Take relevant positions
-                            group_bits = (r[valid_indices] < 0).to(torch.int)
-                            group_reliabilities = torch.abs(r[valid_indices])
-
-                            # Compute parity of hard decisions
-                            checksum = torch.sum(group_bits) % 2
-                            checksums.append(checksum.item())  # Use .item() to convert tensor to scalar
-
-                            # Find minimum reliability in this group
-                            min_reliability = torch.min(group_reliabilities)
-                            min_reliabilities.append(min_reliability.item())  # Use .item() to convert tensor to scalar
-
-                        # Skip if no valid checksums
-                        if not checksums:
-                            continue
-
-                        # Convert to tensors
-                        checksums = torch.tensor(checksums, device=received.device)
-                        min_reliabilities = torch.tensor(min_reliabilities, device=received.device)
-
-                        # Calculate decision variable
+                        u_hat[j] = int(checksums.sum().item() > len(checksums) // 2)
+                    else:
+                        # Weighted majority vote: each check sum counts with its least reliable member
+                        min_reliabilities = reliabilities[groups].min(dim=1).values
                         decision_var = torch.sum((1 - 2 * checksums) * min_reliabilities)
+                        u_hat[j] = int(decision_var.item() < 0)
 
-                        # Make decision
-                        u_hat[j] = (decision_var < 0).to(torch.int)
+                    if u_hat[j]:
+                        bx = bx ^ generator_rows[j]
 
-                # Store the decoded message
                 decoded[i] = u_hat
 
-                # Compute error pattern if needed
                 if return_errors:
-                    # Re-encode the message to get the correct codeword
                     correct_codeword = self.encoder(u_hat.float().unsqueeze(0)).squeeze(0)
-                    errors[i] = (r.to(torch.int) != correct_codeword.to(torch.int)).to(torch.int)
+                    hard = (r != 0) if self.input_type == "hard" else (r < 0)
+                    errors[i] = (hard.to(torch.int) != correct_codeword.to(torch.int)).to(r_block.dtype)
 
-            return (decoded, errors) if return_errors else decoded
+            decoded = decoded.reshape(*r_block.shape[:-1], self.code_dimension)
+            if return_errors:
+                return decoded, errors.reshape(r_block.shape)
+            return decoded
 
         # Apply decoding blockwise
         return apply_blockwise(received, self.code_length, decode_block)
